@@ -240,8 +240,10 @@ def run(ctx):
         # remove_awaiter later and relies on prev == nullptr to know the node is no longer linked
         takes = list(L.call_nodes(ig, callee_re=TAKE_RE, live=live))
         if takes:
+            # (resolved through the frame: inside an expanded helper the node is a parameter bound to the caller's local)
             clears = [w for w in writes if strip_cast(w.ev.get("lhs", {})).get("n") == "prev" and
-                      strip_cast(strip_cast(w.ev["lhs"]).get("b", {})).get("k") == "l" and const_val(w.ev.get("rhs")) == "null"]
+                      strip_cast(strip_cast(ig.resolve(w.ev["lhs"], w.frame)).get("b", {})).get("k") == "l" and
+                      const_val(w.ev.get("rhs")) == "null"]
             for t in takes:
                 heads = [ig.frames[0].block_node[bid] for bid, b in fn.blocks.items()
                          if b.get("term") in ("ForStmt", "WhileStmt") and
